@@ -19,7 +19,7 @@ import (
 	"golang.org/x/net/webdav"
 )
 
-var nsPool = []string{"urn:x", "http://example.com/ns", "DAV:", "urn:y:z", "http://example.com/ns#frag", "urn:uuid:1234"}
+var nsPool = []string{"urn:x", "http://example.com/ns", "DAV:", "urn:y:z", "http://example.com/ns#frag", "urn:uuid:1234", ""}
 var localPool = []string{"a", "author", "prop-1", "Z_9", "displayname", "getetag", "lockdiscovery", "creationdate", "b.c", "x"}
 var textAlphabet = []string{"a", "b", "Z", " ", "<", ">", "&", "\"", "'", "é", "漢", "\t", "]]>", "&amp;", "=", ",", "|", "+", "/", "0"}
 var elemPool = []string{"b", "i", "item", "a", "author"}
@@ -49,7 +49,7 @@ func genText(r *vu.Rng) string {
 	return b.String()
 }
 
-func genValue(r *vu.Rng, local string) []item {
+func genValue(r *vu.Rng, local string, ns string) []item {
 	switch r.Intn(8) {
 	case 0:
 		return nil // empty value
@@ -65,8 +65,15 @@ func genValue(r *vu.Rng, local string) []item {
 				lastText = true
 			} else {
 				name := elemPool[r.Intn(len(elemPool))]
-				if r.Chance(1, 12) {
-					name = local // nested element with the property's own local name (no namespace)
+				if r.Chance(1, 12) && ns != "" {
+					// nested element with the property's own local name but in no namespace (a different
+					// XML name). For a property that is itself in no namespace this would be a nested element
+					// with the SAME name, which xmlValue.UnmarshalXML cannot represent (it ends the value at the
+					// first end tag with the property's name): outside C47's "XML-escaped value" domain, not generated.
+					name = local
+				}
+				if ns == "" && name == local {
+					name = "q" + name
 				}
 				t := ""
 				if r.Bool() {
@@ -178,7 +185,7 @@ func gen(r *vu.Rng, i int) []string {
 					x := pick()
 					v := "-"
 					if flag == "S" {
-						v = canonValue(genValue(r, x.local))
+						v = canonValue(genValue(r, x.local, x.ns))
 					}
 					parts = append(parts, tok(x.ns), tok(x.local), v)
 				}
@@ -336,6 +343,14 @@ func parseMultistatus(b []byte) ([]int, [][]*node, error) {
 }
 
 func propElem(ns, local, inner string, empty bool) string {
+	if ns == "" {
+		// a property in no namespace: a prefix cannot be bound to "", so use the default namespace
+		open := fmt.Sprintf(`<%s xmlns=""`, local)
+		if empty {
+			return open + "/>"
+		}
+		return open + ">" + inner + "</" + local + ">"
+	}
 	open := fmt.Sprintf(`<p:%s xmlns:p="%s"`, local, esc(ns))
 	if empty {
 		return open + "/>"
